@@ -51,6 +51,8 @@ var rec *evid.Rec
 //	empty   empty
 //	input   input
 //	inputs  inputs
+//	debug   debug                  (the command's own function: passes the input on, writes ["DEBUG:",.] to stderr)
+//	stderr  stderr                 (the command's own function: passes the input on, writes it to stderr, strings raw)
 //	arr     [Then...]
 //	if      if . == V then Then... else Else... end
 type item struct {
@@ -102,6 +104,10 @@ func itemText(it item) string {
 		return "input"
 	case "inputs":
 		return "inputs"
+	case "debug":
+		return "debug"
+	case "stderr":
+		return "stderr"
 	case "arr":
 		return "[" + itemsText(it.Then) + "]"
 	case "if":
@@ -123,7 +129,7 @@ func validItems(is []item) bool {
 					return false
 				}
 			}
-		case "dot", "iter", "halt", "empty", "input", "inputs", "arr":
+		case "dot", "iter", "halt", "empty", "input", "inputs", "arr", "debug", "stderr":
 		default:
 			return false
 		}
@@ -317,6 +323,27 @@ type stream struct {
 	items    []any // values; the last one may be an error (malformed tail)
 	pos      int
 	tailSeen bool
+	notes    []string // what debug / stderr wrote since the last takeNotes
+}
+
+func (s *stream) debug(v any) {
+	b, _ := gojq.Marshal([]any{"DEBUG:", v})
+	s.notes = append(s.notes, string(b)+"\n")
+}
+
+func (s *stream) stderr(v any) {
+	if x, ok := v.(string); ok {
+		s.notes = append(s.notes, x)
+		return
+	}
+	b, _ := gojq.Marshal(v)
+	s.notes = append(s.notes, string(b))
+}
+
+func (s *stream) takeNotes() []string {
+	n := s.notes
+	s.notes = nil
+	return n
 }
 
 type tailError struct{}
@@ -434,7 +461,12 @@ func algRunner(items []item, st *stream) runner {
 				if !emit(v) {
 					return nil, false
 				}
-			case "dot":
+			case "dot", "debug", "stderr":
+				if it.K == "debug" {
+					st.debug(in)
+				} else if it.K == "stderr" {
+					st.stderr(in)
+				}
 				if !emit(in) {
 					return nil, false
 				}
@@ -639,6 +671,7 @@ type expect struct {
 	tailErr   bool
 	nulErr    bool
 	nulMid    bool
+	notes     int
 	outputs   int
 	lastFalsy bool
 	kind      string // usage | indent | query | run
@@ -695,6 +728,13 @@ func loop(o opts, st *stream, rn runner) expect {
 			return true
 		})
 		mid := !o.null && st.more()
+		for _, n := range st.takeNotes() {
+			if n != "" {
+				e.diags++
+				e.notes++
+				e.msgs = append(e.msgs, n)
+			}
+		}
 		if nul {
 			e.diags++
 			e.nulErr = true
@@ -846,7 +886,9 @@ func judge(c cliCase) verdict {
 			break
 		}
 		st := newStream(o, docs, c.Tail != "")
-		code, err := gojq.Compile(q, gojq.WithInputIter(st))
+		code, err := gojq.Compile(q, gojq.WithInputIter(st),
+			gojq.WithFunction("debug", 0, 0, func(v any, _ []any) any { st.debug(v); return v }),
+			gojq.WithFunction("stderr", 0, 0, func(v any, _ []any) any { st.stderr(v); return v }))
 		if err != nil {
 			exp = expect{kind: "query", exit: 3, diags: 1}
 			break
@@ -983,6 +1025,9 @@ func do(sub string, c cliCase) string {
 		if e.nulErr {
 			rec.Class(fmt.Sprintf("event/nul-rejected(more inputs=%t)", e.nulMid))
 		}
+		if e.notes > 0 {
+			rec.Class("event/debug-or-stderr-message")
+		}
 		if e.diags > 1 {
 			rec.Class("event/several-diagnostics")
 		}
@@ -1033,7 +1078,8 @@ var freeQueries = []string{`.[]?`, `..`, `range(3)`, `first(., halt)`, `limit(1;
 	`def f: ., halt; f`, `def f: error("in f"); 1, f, 2`, `foreach (1,2) as $x (0; . + $x; ., error("fe"))`, `[inputs] | length`,
 	`input, input, input`, `(1, null) | select(. == null)`, `., halt_error(0)`, `empty, false`, `if . == null then halt_error else . end`,
 	`"a" * 3`, `ascii_downcase?`, `tojson | halt_error(3)`, `[.[]?] | .[0]`, `label $out | (., break $out)`, `isvalid(error)?`, `try (1, error("x"), 3) catch "c"`,
-	`.[]?, error({"in": .})`, `first(empty)`, `last(inputs)`, `input as $x | [., $x]`, `[., input]?`, `inputs | select(. == 2) | halt_error(9)`}
+	`.[]?, error({"in": .})`, `first(empty)`, `last(inputs)`, `input as $x | [., $x]`, `[., input]?`, `inputs | select(. == 2) | halt_error(9)`,
+	`debug`, `stderr`, `debug("m: \(.)")`, `.[]? | debug | select(. == 1)`, `debug, error("after")`, `[.[]? | stderr]`, `debug | halt`}
 
 // queries that must be refused before anything runs (the library decides; the
 // command has to turn the refusal into status 3)
@@ -1049,7 +1095,7 @@ func ip(n int) *int { return &n }
 // generators
 
 type bias struct {
-	val, str, falsy, dot, iter, err, halt, empty, input, arr, cond int
+	val, str, falsy, dot, iter, err, halt, empty, input, arr, cond, note int
 }
 
 func weighted(t *rapid.T, label string, ws map[string]int) string {
@@ -1072,7 +1118,7 @@ func genItems(t *rapid.T, b bias, guards []string, depth, minLen int) []item {
 	out := make([]item, 0, n)
 	for i := 0; i < n; i++ {
 		ws := map[string]int{"val": b.val, "str": b.str, "falsy": b.falsy, "dot": b.dot, "iter": b.iter, "err": b.err, "halt": b.halt, "herr": 2 * b.halt,
-			"empty": b.empty, "input": b.input, "inputs": b.input}
+			"empty": b.empty, "input": b.input, "inputs": b.input, "debug": b.note, "stderr": b.note}
 		if depth < 2 {
 			ws["arr"] = b.arr
 			ws["if"] = b.cond
@@ -1354,14 +1400,14 @@ func TestC15(t *testing.T) {
 
 	// error continuation: errors at chosen inputs and output positions, type
 	// errors from data, malformed tails
-	rec.Rapid(t, "continue", rec.Scale(3000, 220000), func(t *rapid.T) {
+	rec.Rapid(t, "continue", rec.Scale(3000, 150000), func(t *rapid.T) {
 		var c cliCase
 		genStream(t, &c, streamBias{maxDocs: 5, tailOdds: 3})
 		genFlags(t, &c, anyFlags)
 		if rapid.IntRange(0, 5).Draw(t, "free") == 0 {
 			c.Text = rapid.SampledFrom(freeQueries).Draw(t, "query")
 		} else {
-			algQuery(t, &c, bias{val: 4, str: 1, falsy: 1, dot: 5, iter: 3, err: 3, empty: 1, input: 1, arr: 1, cond: 6})
+			algQuery(t, &c, bias{val: 4, str: 1, falsy: 1, dot: 5, iter: 3, err: 3, empty: 1, input: 1, arr: 1, cond: 6, note: 1})
 		}
 		if msg := do("continue", c); msg != "" {
 			t.Fatalf("%s", rec.Fail("continue", c, "%s", msg))
@@ -1369,7 +1415,7 @@ func TestC15(t *testing.T) {
 	})
 
 	// halt and halt_error: status modulo 256, message, nothing afterwards
-	rec.Rapid(t, "halt", rec.Scale(3000, 200000), func(t *rapid.T) {
+	rec.Rapid(t, "halt", rec.Scale(3000, 140000), func(t *rapid.T) {
 		var c cliCase
 		genStream(t, &c, streamBias{maxDocs: 5, tailOdds: 7})
 		genFlags(t, &c, anyFlags)
@@ -1380,7 +1426,7 @@ func TestC15(t *testing.T) {
 	})
 
 	// --exit-status bookkeeping
-	rec.Rapid(t, "exit", rec.Scale(2500, 160000), func(t *rapid.T) {
+	rec.Rapid(t, "exit", rec.Scale(2500, 110000), func(t *rapid.T) {
 		var c cliCase
 		genStream(t, &c, streamBias{maxDocs: 4, tailOdds: 9})
 		genFlags(t, &c, [9]int{1, 1, 1, 3, 1, 1, 7, 1, 1})
@@ -1395,18 +1441,18 @@ func TestC15(t *testing.T) {
 	})
 
 	// terminators, raw strings, NUL rejection, layouts
-	rec.Rapid(t, "terminators", rec.Scale(3000, 200000), func(t *rapid.T) {
+	rec.Rapid(t, "terminators", rec.Scale(3000, 140000), func(t *rapid.T) {
 		var c cliCase
 		genStream(t, &c, streamBias{maxDocs: 4, tailOdds: 9, hostile: true})
 		genFlags(t, &c, [9]int{3, 3, 4, 2, 2, 3, 1, 1, 1})
-		algQuery(t, &c, bias{val: 3, str: 5, dot: 6, iter: 3, err: 1, empty: 1, arr: 2, cond: 2})
+		algQuery(t, &c, bias{val: 3, str: 5, dot: 6, iter: 3, err: 1, empty: 1, arr: 2, cond: 2, note: 1})
 		if msg := do("terminators", c); msg != "" {
 			t.Fatalf("%s", rec.Fail("terminators", c, "%s", msg))
 		}
 	})
 
 	// -n / -s with input and inputs
-	rec.Rapid(t, "inputs", rec.Scale(2500, 160000), func(t *rapid.T) {
+	rec.Rapid(t, "inputs", rec.Scale(2500, 110000), func(t *rapid.T) {
 		var c cliCase
 		genStream(t, &c, streamBias{maxDocs: 5, tailOdds: 2})
 		genFlags(t, &c, [9]int{1, 1, 1, 4, 1, 1, 2, 4, 3})
@@ -1421,7 +1467,7 @@ func TestC15(t *testing.T) {
 	})
 
 	// statuses 2 and 3, the indentation range, a missing query
-	rec.Rapid(t, "usage", rec.Scale(1500, 60000), func(t *rapid.T) {
+	rec.Rapid(t, "usage", rec.Scale(1500, 40000), func(t *rapid.T) {
 		var c cliCase
 		genStream(t, &c, streamBias{maxDocs: 3, tailOdds: 5, simple: true})
 		genFlags(t, &c, anyFlags)
